@@ -71,7 +71,7 @@ def case_from_tlc(obj, h, g):
                  {"name": "twin/" + f0["name"], "ext": twin_ext, "cells": cells}]
         if rnd.randrange(3) == 0:
             files.reverse()
-    via = "cli" if rnd.randrange(16) == 0 else "api"
+    via = ("cli", "cmd")[rnd.randrange(2)] if rnd.randrange(12) == 0 else "api"
     c = {"case": "tlc-" + h, "input": {"files": files, "filters": filters, "via": via}}
     m = obj.get("machine")
     if isinstance(m, dict):
@@ -95,6 +95,7 @@ def nontrivial(rec):
 def extra_evidence(records):
     n_entries = sum(len(r["observed"]["todos"]) for r in records)
     n_cli = sum(1 for r in records if r["input"].get("via") == "cli")
+    n_cmd = sum(1 for r in records if r["input"].get("via") == "cmd")
     n_files = sum(len(r["input"]["files"]) for r in records)
     agree = differ = 0
     drift = []
@@ -111,5 +112,5 @@ def extra_evidence(records):
             if len(drift) < 5:
                 drift.append(r["case"])
     return {"machine_vs_code_same_report": agree, "machine_vs_code_different_report": differ, "DRIFT_examples": drift,
-            "files_rendered": n_files, "entries_observed": n_entries, "cases_via_cli": n_cli,
+            "files_rendered": n_files, "entries_observed": n_entries, "cases_via_cli": n_cli, "cases_via_root_command_after_an_earlier_request": n_cmd,
             "panics_observed": sum(1 for r in records if r["observed"]["panic"])}
